@@ -7,8 +7,9 @@ import Bluebell.Props.C05
   keywords) is caught by the stylesheet's hand-maintained `escape-prefixes` list (regenerated from
   `akn_text.xsl`): the escaped text starts with a backslash. Removing a keyword from the list, or
   adding one to the grammar only, fails this `decide`.
-  `C06_counterexample_item` — the one gap on the unchanged tree: `ITEM` (guarded in the grammar by
-  `!'ITEM'` at the start of a list introduction) is not in the list (finding F9).
+  `C06_item_escaped` — `ITEM` (guarded in the grammar by `!'ITEM'` at the start of a list introduction)
+  is covered since the repair cd7bc05; on the pinned tree it was the one gap (finding F9, found by this
+  theorem's predecessor failing to cover it).
 * `C06_num_escape_round_trip` — the escaping applied to a `num` (backslashes doubled, hyphens
   escaped) is undone exactly by the parser's `unescape`, for every string without a newline; and the
   escaped num never contains the separator ` - `.
@@ -18,7 +19,7 @@ import Bluebell.Props.C05
 * `C06_examples` — kernel-evaluated: paragraphs, headings and nums made of keywords and marker
   sequences survive unparse + parse with the same structure and text.
 The general structural statement is decided on the real code by the tree oracle (with the listed
-escaping gaps F9, F32–F34, F36); it is not yet a theorem.
+escaping gaps F32–F34, F36, F37); it is not yet a theorem.
 -/
 namespace Bluebell
 
@@ -50,7 +51,7 @@ def blockKeywords : List String :=
   ruleLits' aknSource "speech_group_name" ++ ruleLits' aknSource "speech_block_name" ++
   ruleLits' aknSource "attachment_marker" ++
   (["block_list", "bullet_list", "table", "table_row", "longtitle", "subheading", "crossheading", "blocks", "block_quote",
-    "footnote", "speech_from", "table_cell"].flatMap (headLit aknSource))
+    "footnote", "speech_from", "table_cell", "block_list_item"].flatMap (headLit aknSource))
 
 /-- container markers: the whole line is the keyword -/
 def containerKeywords : List String :=
@@ -64,8 +65,8 @@ theorem C06_escape_list_covers_keywords :
     blockKeywords.length ≥ 70 ∧ blockKeywords.all (fun k => escaped (k ++ " x")) = true ∧
     containerKeywords.all escaped = true := by decide +kernel
 
-/-- F9: a list introduction starting with `ITEM` is not escaped. -/
-theorem C06_counterexample_item : escaped "ITEM is intro" = false := by decide +kernel
+/-- F9 (repaired in cd7bc05): a list introduction starting with `ITEM` is escaped. -/
+theorem C06_item_escaped : escaped "ITEM is intro" = true ∧ blockKeywords.contains "ITEM" = true := by decide +kernel
 
 /-! ### num escaping -/
 
